@@ -83,7 +83,7 @@ def run(tier):
     for key, txt in races:
         V.disagree(key, {"race_report": txt})
     lines, byid = proto.to_trace(obs)
-    rejected, tr = proto.validate_trace("c10", lines, timeout=3000)
+    rejected, tr = proto.validate_trace("c10", lines, timeout=600)
     bycase = {c["id"]: c for c in cases}
     for rid in sorted(rejected):
         o = byid[rid]
